@@ -154,8 +154,19 @@ __CPROVER_assigns(*off) \
 __CPROVER_assigns(rdlength != NULL: *rdlength) \
 __CPROVER_assigns(__CPROVER_object_upto(name, ns)) \
 __CPROVER_ensures(__CPROVER_return_value == 0 || __CPROVER_return_value == 1) \
-__CPROVER_ensures(__CPROVER_return_value == 0 ==> (*off <= sz && *off > __CPROVER_old(*off) && spec_terminated(name, ns))) \
+__CPROVER_ensures(__CPROVER_return_value == 0 ==> (*off <= sz && *off > __CPROVER_old(*off))) \
 __CPROVER_ensures(rdlength != NULL ==> (*rdlength >= __CPROVER_old(*rdlength) && (size_t)(*rdlength - __CPROVER_old(*rdlength)) <= ns))
+
+/* assumed contract of memcpy (C standard: reads src[0,n), writes dst[0,n), nothing else). Its requires clause is CHECKED at
+ * each of the three call sites in rfc1035NameUnpack; the copied contents are not needed for this target's postconditions.
+ * (cbmc's own memcpy model with a symbolic length does not finish under --dfcc: DESIGN 5 C37 names this fallback.) */
+#if defined(T_NAMEUNPACK) || defined(T_QUERYUNPACK)
+void *memcpy(void *dst, const void *src, size_t n)
+__CPROVER_requires(__CPROVER_r_ok(src, n) && __CPROVER_w_ok(dst, n))
+__CPROVER_assigns(__CPROVER_object_upto(dst, n))
+__CPROVER_ensures(__CPROVER_return_value == dst)
+;
+#endif
 
 #if defined(T_NAMEUNPACK)
 int rfc1035NameUnpack(const char *buf, size_t sz, unsigned int *off, unsigned short *rdlength, char *name, size_t ns, int rdepth)
@@ -171,6 +182,163 @@ void h_nameunpack(void)
     __CPROVER_assert(!(g_ret == 1), "reach: name rejected");
     __CPROVER_assert(!(g_ret == 0 && rdepth == 65), "reach: accepted at the deepest permitted recursion level");
     __CPROVER_assert(!(g_ret == 0 && ns == 1), "reach: accepted into a 1-byte name buffer");
+#endif
+}
+#endif
+
+
+/* ---------- target "nameunpack_term": the NUL clause of the contract, by induction over 65 - rdepth ----------
+ * The REAL function body runs (definition named rfc1035NameUnpack_real by -DM_NAMEUNPACK); its recursive call goes to the
+ * contract model (models.c), i.e. the induction hypothesis at rdepth + 1.  Also re-checks the other ensures clauses. */
+#if defined(T_NAMEUNPACK_TERM)
+int rfc1035NameUnpack_real(const char *buf, size_t sz, unsigned int *off, unsigned short *rdlength, char *name, size_t ns, int rdepth);
+void h_nameunpack_term(void)
+{
+    size_t sz, ns; unsigned int off; unsigned short rdl; _Bool use_rdl; int rdepth;
+    __CPROVER_assume(1 <= sz && sz <= N);
+    __CPROVER_assume(1 <= ns && ns <= NS);
+    __CPROVER_assume(0 <= rdepth && rdepth <= 65);
+    __CPROVER_assume((size_t)rdl + ns <= 65535);
+    char *buf = malloc(sz); __CPROVER_assume(buf != NULL);
+    char *name = malloc(ns); __CPROVER_assume(name != NULL);
+    unsigned int off0 = off; unsigned short rdl0 = rdl;
+    int r = rfc1035NameUnpack_real(buf, sz, &off, use_rdl ? &rdl : NULL, name, ns, rdepth);
+    __CPROVER_assert(r == 0 || r == 1, "ensures: returns 0 or 1");
+#ifdef TWIN_TERM
+    __CPROVER_assert(!(r == 0) || !spec_terminated(name, ns), "ensures: TWIN (negated) name NUL-terminated");
+#else
+    __CPROVER_assert(!(r == 0) || spec_terminated(name, ns), "ensures: on success name[0,ns) holds a NUL");
+#endif
+    __CPROVER_assert(!(r == 0) || (off <= sz && off > off0), "ensures: on success *off advanced and *off <= sz");
+    __CPROVER_assert(rdl >= rdl0 && (size_t)(rdl - rdl0) <= ns && (use_rdl || rdl == rdl0), "ensures: *rdlength grows by at most ns");
+#ifdef REACH
+    __CPROVER_assert(!(r == 0 && name[0] == 0), "reach: root name accepted");
+    __CPROVER_assert(!(r == 0 && name[0] != 0 && name[1] == '.' && (unsigned char)buf[off0] < 64), "reach: multi-label name accepted");
+    __CPROVER_assert(!(r == 0 && (unsigned char)buf[off0] >= 192), "reach: accepted through a compression pointer");
+    __CPROVER_assert(!(r == 1 && rdepth == 65 && (unsigned char)buf[off0] >= 192), "reach: pointer refused at depth 65");
+    __CPROVER_assert(!(r == 1), "reach: rejected");
+#endif
+}
+#endif
+
+/* =====================================================================================================================
+ * rfc1035QueryUnpack, rfc1035RRUnpack, rfc1035MessageUnpack: harness-encoded contracts (RRUnpack/MessageUnpack allocate
+ * symbolic-size blocks, which --dfcc does not finish).  rfc1035NameUnpack is replaced by its contract model.
+ * buf is a heap block of EXACTLY sz bytes (1 <= sz <= N, contents arbitrary): any read outside buf[0,sz) fails a pointer check.
+ * ===================================================================================================================== */
+#if defined(T_QUERYUNPACK)
+void h_queryunpack(void)
+{
+    size_t sz; unsigned int off; rfc1035_query q;
+    __CPROVER_assume(1 <= sz && sz <= N);
+    char *buf = malloc(sz); __CPROVER_assume(buf != NULL);
+    unsigned int off0 = off;
+    int r = rfc1035QueryUnpack(buf, sz, &off, &q);
+    __CPROVER_assert(r == 0 || r == 1, "ensures: returns 0 or 1");
+#ifdef TWIN_QUERY
+    __CPROVER_assert(!(r == 0) || !(off <= sz), "ensures: TWIN (negated) *off <= sz on success");
+#else
+    __CPROVER_assert(!(r == 0) || (off <= sz && off >= off0 + 5), "ensures: on success *off <= sz and at least 5 octets consumed");
+#endif
+    __CPROVER_assert(!(r == 0) || (q.qtype == spec_be16(buf + off - 4) && q.qclass == spec_be16(buf + off - 2)),
+                     "ensures: on success QTYPE/QCLASS are the two big-endian words after the name");
+    __CPROVER_assert(!(r == 0) || spec_terminated(q.name, NS), "ensures: on success the name is NUL-terminated");
+    __CPROVER_assert(!(r == 1) || (q.name[0] == 0 && q.qtype == 0 && q.qclass == 0 && (g >= NS || q.name[g] == 0)),
+                     "ensures: on failure the query is all zero");
+    free(buf);
+#ifdef REACH
+    __CPROVER_assert(!(r == 0), "reach: question accepted");
+    __CPROVER_assert(!(r == 0 && off == sz), "reach: question ends exactly at the end of the datagram");
+    __CPROVER_assert(!(r == 1 && off > off0), "reach: rejected after the name (truncated QTYPE/QCLASS)");
+    __CPROVER_assert(!(r == 1 && off == off0), "reach: rejected in the name");
+#endif
+}
+#endif
+
+#if defined(T_RRUNPACK)
+void h_rrunpack(void)
+{
+    size_t sz; unsigned int off; rfc1035_rr RR;
+    __CPROVER_assume(1 <= sz && sz <= N);
+    char *buf = malloc(sz); __CPROVER_assume(buf != NULL);
+    unsigned int off0 = off;
+    int r = rfc1035RRUnpack(buf, sz, &off, &RR);
+    __CPROVER_assert(r == 0 || r == 1, "ensures: returns 0 or 1");
+#ifdef TWIN_RR
+    __CPROVER_assert(!(r == 0) || !(off <= sz), "ensures: TWIN (negated) *off <= sz on success");
+#else
+    __CPROVER_assert(!(r == 0) || (off <= sz && off >= off0 + 11), "ensures: on success *off <= sz and at least 11 octets consumed");
+#endif
+    __CPROVER_assert(!(r == 0) || spec_terminated(RR.name, NS), "ensures: on success the owner name is NUL-terminated");
+    __CPROVER_assert(!(r == 0) || (RR.rdata != NULL && __CPROVER_POINTER_OFFSET(RR.rdata) == 0 &&
+                                   __CPROVER_OBJECT_SIZE(RR.rdata) >= RR.rdlength),
+                     "ensures: on success rdata is a heap block of at least rdlength bytes");
+    __CPROVER_assert(!(r == 0 && RR.type != RFC1035_TYPE_PTR) || __CPROVER_OBJECT_SIZE(RR.rdata) == RR.rdlength,
+                     "ensures: non-PTR: the rdata block is exactly the copied length");
+    __CPROVER_assert(!(r == 0 && RR.type != RFC1035_TYPE_PTR && g < RR.rdlength) || RR.rdata[g] == buf[off - RR.rdlength + g],
+                     "ensures: non-PTR: rdata is the RDATA octets of the datagram (ghost index)");
+    __CPROVER_assert(!(r == 0 && RR.type == RFC1035_TYPE_PTR) ||
+                     (__CPROVER_OBJECT_SIZE(RR.rdata) == NS && spec_terminated(RR.rdata, NS)),
+                     "ensures: PTR: rdata is a 256-byte block holding a NUL-terminated name");
+    __CPROVER_assert(!(r == 1) || (RR.rdata == NULL && RR.name[0] == 0 && RR.type == 0 && RR.rdlength == 0),
+                     "ensures: on failure the record is all zero (nothing left to free)");
+    if (r == 0)
+        free(RR.rdata);       /* with --memory-leak-check: nothing else was allocated and kept */
+    free(buf);
+#ifdef REACH
+    __CPROVER_assert(!(r == 0 && RR.type == RFC1035_TYPE_A && RR.rdlength == 4), "reach: A record accepted");
+    __CPROVER_assert(!(r == 0 && RR.type == RFC1035_TYPE_PTR), "reach: PTR record accepted");
+    __CPROVER_assert(!(r == 0 && off == sz), "reach: record ends exactly at the end of the datagram");
+    __CPROVER_assert(!(r == 1 && off > off0 + 10), "reach: rejected after the fixed part (RDATA truncated or bad PTR name)");
+    __CPROVER_assert(!(r == 1 && off == off0), "reach: rejected in the owner name");
+#endif
+}
+#endif
+
+#if defined(T_MESSAGE)
+#ifndef KMAX
+#define KMAX (N / 11 + 1)
+#endif
+void h_message(void)
+{
+    size_t sz;
+    __CPROVER_assume(sz <= N);                       /* ANY datagram of at most N octets, including the empty one */
+    char *buf = malloc(sz); __CPROVER_assume(buf != NULL);
+    rfc1035_message *ans = NULL;                    /* as the only caller (idnsGrokReply) initialises it */
+    int n = rfc1035MessageUnpack(buf, sz, &ans);
+    __CPROVER_assert(n >= -15 && n < KMAX, "ensures: result is -15..-1 (error), 0, or a record count that fits the datagram");
+    __CPROVER_assert(!(sz < 12) || (n == -15 && ans == NULL), "ensures: a datagram shorter than a header is refused");
+#ifdef TWIN_MSG
+    __CPROVER_assert(!(n > 0) || !(ans != NULL && ans->answer != NULL && (unsigned)n <= ans->ancount), "ensures: TWIN (negated) n records present");
+#else
+    __CPROVER_assert(!(n > 0) || (ans != NULL && ans->answer != NULL && (unsigned)n <= ans->ancount && ans->rcode == 0),
+                     "ensures: n > 0 => message returned with an answer array of ancount >= n records");
+#endif
+    __CPROVER_assert(!(n > 0 && g < (size_t)n) ||
+                     (ans->answer[g].rdata != NULL && __CPROVER_OBJECT_SIZE(ans->answer[g].rdata) >= ans->answer[g].rdlength &&
+                      spec_terminated(ans->answer[g].name, NS)),
+                     "ensures: each of the n records has a terminated name and an rdata block of at least rdlength bytes (ghost index)");
+    __CPROVER_assert(!(n > 0 && g >= (size_t)n && g < ans->ancount) || ans->answer[g].rdata == NULL,
+                     "ensures: records beyond n hold no rdata (ghost index)");
+    __CPROVER_assert(!(n == 0) || (ans != NULL && ans->ancount == 0 && ans->rcode == 0 && ans->answer == NULL),
+                     "ensures: 0 => a message without answers");
+    __CPROVER_assert(!(n < 0) || ans == NULL || (n == -(int)ans->rcode && ans->rcode != 0 && ans->answer == NULL),
+                     "ensures: error => no message, or the server's RCODE with the message (no answer array)");
+    __CPROVER_assert(ans == NULL || (spec_header_matches(buf, ans) && ans->qdcount == 1 && ans->query != NULL &&
+                                     spec_terminated(ans->query[0].name, NS)),
+                     "ensures: a returned message carries the datagram's header and one terminated question");
+    _Bool had = ans != NULL;
+    rfc1035MessageDestroy(&ans);                   /* the caller's duty; afterwards --memory-leak-check: nothing is left */
+    __CPROVER_assert(ans == NULL, "ensures: MessageDestroy clears the pointer");
+    free(buf);
+#ifdef REACH
+    __CPROVER_assert(!(n == 1), "reach: one record");
+    __CPROVER_assert(!(n == 2), "reach: two records");
+    __CPROVER_assert(!(n == 1 && ans == NULL && sz == N), "reach: full-size datagram accepted");
+    __CPROVER_assert(!(n == 0), "reach: no answers");
+    __CPROVER_assert(!(n == -3 && had), "reach: NXDOMAIN returned with the message");
+    __CPROVER_assert(!(n == -15 && !had && sz >= 12 + 5 + 11), "reach: corrupt first record => everything freed, no message");
+    __CPROVER_assert(!(n == -15 && sz == 0), "reach: empty datagram");
 #endif
 }
 #endif
